@@ -33,7 +33,8 @@ RTOL = 1e-11   # reference-model equality (DESIGN section 3); measured on the un
 
 RULE = ("three parts. 'opts': for each module kind x {2D,3D} on a small grid the FULL product bc-kind(7) x "
         "add_constant-kind(6) x bcdiagval-kind(5) x matrix_type(6) is enumerated (one case per bc x constant, 30 "
-        "module instances inside), two scaling vectors per instance. 'grid': every grid up to the tier bound for "
+        "module instances inside; quick: a checkerboard half of the 30 per case, the complementary half under the "
+        "next kind/dimension, so that all 1260 combinations still occur), two scaling vectors per instance. 'grid': every grid up to the tier bound for "
         "each kind (exhaustive), random element sizes/material, a plain instance (physics clauses) plus random "
         "option combinations, three scaling vectors per instance (history). 'rand': seed-dependent larger grids "
         "with hostile material/size corners. distinct = kind x part x grid x bc/constant class; every case with "
@@ -69,16 +70,16 @@ def _floors(base, bc, const, mtype, diag, x):
     return f
 
 
-# measured on the unchanged tree (seed 0): quick 668 cases / 10 256 instances / 21 840 matrices / 3.6e7 entries,
-# every bc kind ~1 530, constant kind ~1 590, matrix type ~1 640, bcdiagval kind ~1 840, x kind ~2 190..2 700;
+# measured on the unchanged tree (seed 0): quick 668 cases / 5 936 instances / 13 200 matrices / 2.7e7 entries,
+# every bc kind ~810, constant kind ~870, matrix type ~940, bcdiagval kind ~970, x kind ~1 320..1 740;
 # thorough 3 136 cases / 39 552 instances / 91 872 matrices / 2.1e9 entries (bc ~5 500, constant ~5 800,
 # matrix type ~6 270, bcdiagval ~6 580, x ~9 530).  Floors = about half of that.
 FLOORS = {
-    "quick": _floors({"cases_held": 330, "distinct_nontrivial": 330, "matrices_compared": 11000,
-                      "entries_compared": 18_000_000, "instances": 5000, "history_calls": 11000, "psd_checks": 240,
+    "quick": _floors({"cases_held": 330, "distinct_nontrivial": 330, "matrices_compared": 6600,
+                      "entries_compared": 13_000_000, "instances": 3000, "history_calls": 6600, "psd_checks": 240,
                       "rbm_modes_checked": 1100, "mass_directions_checked": 500, "poisson_const_checks": 260,
-                      "poisson_energy_checks": 260, "stiffness_symmetry_checks": 260, "x:complex": 250},
-                     bc=750, const=790, mtype=820, diag=900, x=1100),
+                      "poisson_energy_checks": 260, "stiffness_symmetry_checks": 260, "x:complex": 170},
+                     bc=400, const=430, mtype=460, diag=480, x=650),
     "thorough": _floors({"cases_held": 1550, "distinct_nontrivial": 1550, "matrices_compared": 45000,
                          "entries_compared": 1_000_000_000, "instances": 19500, "history_calls": 45000,
                          "psd_checks": 1500, "rbm_modes_checked": 7500, "mass_directions_checked": 3300,
@@ -96,12 +97,17 @@ def plan(tier, seed):
     # ---- part 'opts': full option product on small grids
     small = {2: [[3, 2, 0]], 3: [[2, 1, 2]]} if quick else {2: [[3, 2, 0], [1, 1, 0], [2, 4, 0]],
                                                             3: [[2, 1, 2], [1, 1, 1], [1, 3, 2]]}
-    for kind in KINDS:
+    for ki, kind in enumerate(KINDS):
         for dim in (2, 3):
             for n in small[dim]:
                 for bc in BC_KINDS:
                     for const in CONST_KINDS:
-                        cases.append({"part": "opts", "kind": kind, "n": n, "bc": bc, "const": const})
+                        c = {"part": "opts", "kind": kind, "n": n, "bc": bc, "const": const}
+                        if quick:
+                            # half of the 30 (bcdiagval, matrix_type) pairs per case, the other half in the case of
+                            # the next kind / dimension: every 4-way combination is still executed in the quick tier
+                            c["half"] = (ki + dim) % 2
+                        cases.append(c)
     # ---- part 'grid': every grid up to the bound
     b2, b3 = (6, 3) if quick else (14, 6)
     grids = [[i, j, 0] for i in range(1, b2 + 1) for j in range(1, b2 + 1)]
@@ -585,7 +591,9 @@ def run_case(case, ctx):
     if part == "opts":
         bc_kind, const_kind = case["bc"], case["const"]
         diags = DIAG_KINDS if bc_kind != "none" else ["default"]
-        for diag_kind, mtype in itertools.product(diags, MTYPES):
+        for ip, (diag_kind, mtype) in enumerate(itertools.product(diags, MTYPES)):
+            if case.get("half") is not None and len(diags) > 1 and (ip + ip // len(MTYPES) + case["half"]) % 2:
+                continue
             opts = make_opts(rng, s, bc_kind, diag_kind, const_kind, mtype)
             run_instance(pym, s, opts, pick_xkinds(rng, s, 2), rng, ctx, worst, obs)
         key = f"{s.kind}/opts/{nx}x{ny}x{nz}/{bc_kind}/{const_kind}"
